@@ -23,8 +23,14 @@ id) the answer under any ordering denotes the formula under that numbering.
    one renamed (`sub_rename` + parser completeness), and the documented meaning is invariant under
    renaming all ids, bound ones included (`sem_rename`); both answers denote their trees (C01).
 
-Not proved: `export_reimport` (the `-r` output fed back with `-o` reproduces the identical table):
-checked by the correspondence run through the real binary on every generated case.
+ * `table_order_iso` / `export_reimport` (`Thm/C11E.lean`): two orderings that put the text's variables
+   in the same relative order give the identical variable list, header, rows and `-v` lines; in
+   particular the ordering exported with `-r` (name k ↦ id k) reproduces the table.  (The second
+   diagram is the first one renamed, by canonicity; the renaming is increasing, so columns, header and
+   row order are unchanged.)
+
+Not proved: that reading the exported *text* back gives name k ↦ id k (a statement about `scan` on the
+printed names); the correspondence run does the round trip through the real binary.
 -/
 import Rsbdd.Proofs.VarIds
 import Rsbdd.Model.Cli
